@@ -1,2 +1,2 @@
-"""Matchers for known findings of the tzfile area (none open)."""
+"""Matchers for known findings of the tzfile area (none open; F-C05-resolve-24h was fixed by 7f58098)."""
 MATCHERS = {}
